@@ -31,12 +31,11 @@ package parser
 
 //@ pred ErrLoc(e error) = boxis(e, ParseError) && 1 <= e.LineNumberStart && e.LineNumberStart <= e.LineNumberEnd
 
+// (no precondition: package emitter builds errors too; that an error is located is a postcondition of every parse function)
 //@ func NewParseError
-//@   requires [C18:located] 1 <= tok.LineNumber && tok.LineNumber <= tok.EndLineNumber
 //@   ensures [C18:err] result != nil && boxis(result, ParseError) && result.LineNumberStart == tok.LineNumber && result.LineNumberEnd == tok.EndLineNumber
 //@ end
 //@ func NewRangeParseError
-//@   requires [C18:located] 1 <= tok1.LineNumber && tok1.LineNumber <= tok2.EndLineNumber
 //@   ensures [C18:err] result != nil && boxis(result, ParseError) && result.LineNumberStart == tok1.LineNumber && result.LineNumberEnd == tok2.EndLineNumber
 //@ end
 
